@@ -17,8 +17,10 @@ PROPS = {
         explanation='VCs over the real source of the Content-Length reader: invariant (delivered++stream == stream0, '
                     'accounting, within Content-Length), exactness postcondition, read-argument bound, termination variant.',
         level_text='Proof: every VC generated from the current source of _iter_body / _body_read under the stated contracts is '
-                   'discharged (all inputs, all fragmentations, all iteration counts); the bounded contract run is the replay harness.',
-        level_note='Assumes the server read(n) contract (PEP 3333), io.BytesIO/TemporaryFile library contract, buff_size >= 1; trusts pyvc and the solvers.',
+                   'discharged (all inputs, all fragmentations, all iteration counts), as are the wiring obligations of _body / body / content_length '
+                   'and of Request.copy (a copy shares the buffered body and the remembered refusal); the bounded contract run is the replay harness.',
+        level_note='Assumes the server read(n) contract (PEP 3333), io.BytesIO/TemporaryFile library contract, buff_size >= 1; trusts pyvc and the solvers. '
+                   'A copy taken BEFORE the first body access shares the raw stream (not in the quantifier of the statement).',
         trusted_base=['server read(n) contract (PEP 3333)', 'io.BytesIO/TemporaryFile write/getvalue (library contract)'],
     ),
     'C05': dict(
@@ -85,7 +87,9 @@ PROPS = {
                     'b64decode(msg); every other path returns None without deserialising; _lscmp(a,b) <=> a == b; decode(encode(d,k),k) == d '
                     'from the library axioms; get_cookie returns a signed payload only through the verified pair whose name equals the key.',
         level_text='Proof of verify-before-unpickle and of the signed round trip for all inputs, relative to the cryptographic assumption '
-                   'A-HMAC (listed); the unsigned transport through http.cookies.SimpleCookie is library code and is decided bounded only.',
+                   'A-HMAC (listed), including the response side (set_cookie stores exactly the encoding of the (name, value) pair under that name; '
+                   'HTTPResponse.apply keeps the cookies unless the raised response has its own); the unsigned transport through '
+                   'http.cookies.SimpleCookie is library code and is decided bounded only.',
         level_note='A-HMAC (no forgery without the key) is an assumption, not provable. hmac/base64/pickle are uninterpreted with the stated axioms. '
                    'Unsigned round trip through SimpleCookie: bounded; two known findings (empty value, code points above U+00FF).',
         trusted_base=['A-HMAC', 'pickle/base64 inverse axioms', 'sum/zip/generator-expression semantics as stated'],
@@ -112,8 +116,9 @@ PROPS = {
         explanation='get_first_range returns exactly the first byte-range-spec clipped to the file or None iff unsatisfiable/unparsable; '
                     '_file_iter_range yields exactly that slice in chunks <= maxread; static_file uses the same (s,e) for Content-Range, '
                     'Content-Length and the body, 416 iff no range, whole file with true length otherwise, 304 iff not modified, HEAD without body.',
-        level_text='Proof for all headers, file sizes and read fragmentations, relative to int() as a partial function.',
-        level_note='int() is abstract (what counts as a number is Python\'s); date parsing (parse_date) is library code and is bounded only; '
+        level_text='Proof for all headers, file sizes and read fragmentations, relative to int() as a partial function; parse_date is under '
+                   'contract relative to the library parser (the zone offset of the date is accounted for).',
+        level_note='int() is abstract (what counts as a number is Python\'s); the text -> fields step of date parsing (email.utils.parsedate_tz) is library code (bounded); '
                    'a present If-Modified-Since header is assumed non-empty.',
         trusted_base=['file object contract seek/read', 'int(str) partial-function abstraction'],
     ),
@@ -234,8 +239,9 @@ PROPS = {
         level_text='Bounded contract check (never counted as proved) for the statement. Proved: the four helpers that rewrite tree nodes in '
                    'place (_make_node, _split, _try_merge, _mount) keep the abstract content of the tree (keys concatenate to the old key, '
                    'every slot and child carried over, merge only without data/hooks and never across a wildcard, index string matches the '
-                   'children, one wildcard child kept last). The algorithms that walk the tree (get, _match, _set, remove) and the index '
-                   'dictionaries of RadiRouter are not under contract.',
+                   'children, one wildcard child kept last); make_filter keeps one handler object per filter spec (the identity the router '
+                   'compares); a refused method registration changes nothing (method-table mutators). The algorithms that walk the tree '
+                   '(get, _match, _set, remove) and the index dictionaries of RadiRouter are not under contract.',
         level_note='Depth bound and universes are stated in coverage.bounded.bound.',
     ),
     'C01': dict(
@@ -248,7 +254,8 @@ PROPS = {
                     'fresh dict of exactly the named pairs; the filter handler closures return the converted capture or refuse.',
         level_text='Bounded contract check of the real router (never counted as proved): the walk of the radix tree (RadiDict.get/_match/_set/'
                    'remove) with backtracking and compiled regular expressions is not under contract. Proved parts: result assembly of resolve, '
-                   'make_params_dict, the filter handler closures, and the node surgery helpers (_make_node, _split, _try_merge, _mount).',
+                   'make_params_dict, the filter handler closures, make_filter (one handler object per filter spec), and the node surgery '
+                   'helpers (_make_node, _split, _try_merge, _mount); frame: generated wildcard names cannot collide with user names.',
         level_note='Bounds are stated in coverage.bounded.bound. Two known findings (names of a second rule on a shared pattern; int filter digit limit).',
     ),
     'C06': dict(
@@ -262,7 +269,7 @@ PROPS = {
                    'the index table MatchTail.__init__ builds for it, the dispatcher HeadersEaeter.eat, the section emission with absolute '
                    'offsets of iter_markup (relative to the eaters), and the feeding obligation of _body_read. The two searching eaters '
                    '(_eat_data / _eat_start_boundary: block-wise delimiter search; _eat_headers: regular expression) are bounded only, so '
-                   'the level stays `other`.',
+                   'the level stays `other`. _eat_start_boundary is under contract relative to _eat_data.',
         level_note='Bounds are stated in coverage.bounded.bound.',
     ),
     'C07': dict(
